@@ -771,6 +771,34 @@ func (se *specEnv) call(n *ast.CallExpr) specVal {
 			et := a.T.Underlying().(*types.Slice).Elem()
 			p := se.evalInt(n.Args[1])
 			return specVal{Addr: &PtrV{Obj: sv.Arr, Elem: true, Idx: p, Root: et}, T: et}
+		case "setof":
+			// finite set of references/integers: setof(a, b, ...)
+			set := constArray(ArrSort(SInt, SBool), False)
+			for _, a := range n.Args {
+				var t Term
+				switch v := se.rval(se.evalRV(a)).(type) {
+				case Term:
+					t = v
+				case *PtrV:
+					t = se.x.ptrTerm(v)
+				default:
+					se.fail("setof(): element is not a scalar or reference")
+				}
+				set = Store(set, t, True)
+			}
+			return specVal{V: set, T: &ghostArrayT{Type: untypedInt, elem: SBool}}
+		case "allocated":
+			// the reference denotes an object that exists in the state the clause is evaluated in
+			var t Term
+			switch v := se.rval(se.evalRV(n.Args[0])).(type) {
+			case Term:
+				t = v
+			case *PtrV:
+				t = se.x.ptrTerm(v)
+			default:
+				se.fail("allocated(): not a reference")
+			}
+			return specVal{V: Le(t, se.st.W), T: boolT}
 		case "bytesof":
 			// the whole content of the byte array behind a slice (footprints of opaque predicates)
 			sv, ok := se.rval(se.eval(n.Args[0])).(*SliceV)
@@ -1201,7 +1229,10 @@ func (se *specEnv) evalBoolScoped(e ast.Expr, qvs []Term) Term {
 	}
 	if len(local) > 0 {
 		// type invariants of values read under the quantifier hold for every instance:
-		// they become a separate universally quantified fact
+		// they become a separate universally quantified fact. The allocation bounds ("a
+		// reference stored in the heap is below the allocation watermark") hold for the
+		// fields of ALLOCATED objects only: an object a callee allocates later lives above
+		// the current watermark, and its fields may point to other fresh objects.
 		se.cur.assume(Forall(qvs, And(local...)))
 	}
 	return b
